@@ -48,6 +48,17 @@ Definition has_next {A} (t : list (event A)) : bool := existsb is_next t.
 (* events that really suspend: checkpoint() and cancel_shielded_checkpoint() (checkpoint_if_cancelled does not) *)
 Definition is_yield {A} (e : event A) : bool := match e with Ck | Sh => true | _ => false end.
 Definition has_yield {A} (t : list (event A)) : bool := existsb is_yield t.
+(* events that observe a pending cancellation: checkpoint() and checkpoint_if_cancelled() (the shielded one does not) *)
+Definition is_check {A} (e : event A) : bool := match e with Ck | CkIf => true | _ => false end.
+(* "passes a checkpoint": a cancellation check AND a real yield to the event loop *)
+Definition passes_ck {A} (t : list (event A)) : bool := existsb is_yield t && existsb is_check t.
+(* order-aware: no element is handed out (Yield v) before the first cancellation check *)
+Fixpoint check_before_first_yield_value {A} (t : list (event A)) : bool :=
+  match t with
+  | [] => true
+  | e :: r => if is_check e then true
+              else match e with Yield _ => false | _ => check_before_first_yield_value r end
+  end.
 Definition has_ck {A} (t : list (event A)) : bool := existsb is_ck t.
 Definition outcome {A} (t : trace A) : list A * option err := (yields (fst t), snd t).
 Definition all_sync (ss : list src) : bool := forallb (fun s => match fst s with KSync => true | KAsync => false end) ss.
@@ -659,16 +670,18 @@ Record tst := mkT {
   tpolled : list cell;           (* ghost: result of every __anext__ of the source, in order *)
   tstart : nat -> nat;           (* ghost: link at which consumer c started (0, or the original's link for a copy) *)
   tcks : nat -> nat;             (* ghost: checkpoint events logged by consumer c's segments *)
-  tlocks : nat -> nat            (* ghost: Lock.acquire() calls of consumer c (each one is a checkpoint, C08/C09) *)
+  tlocks : nat -> nat;           (* ghost: Lock.acquire() calls of consumer c (each one is a checkpoint, C08/C09) *)
+  tchk : nat -> nat;             (* ghost: cancellation-check events (Ck, CkIf) logged by consumer c's segments *)
+  tyld : nat -> nat              (* ghost: yielding events (Ck, Sh) logged by consumer c's segments *)
 }.
 
 Definition tinit (mode : nat) (l : list Z) (n : nat) : tst :=
   mkT mode l (fun _ => None) None [] (fun _ => 0) (fun _ => false) (fun _ => TIdle) n
-      (fun _ => []) (fun _ => false) [] (fun _ => 0) (fun _ => 0) (fun _ => 0).
+      (fun _ => []) (fun _ => false) [] (fun _ => 0) (fun _ => 0) (fun _ => 0) (fun _ => 0) (fun _ => 0).
 
 Definition set_phase (s : tst) (c : nat) (p : tph) : tst :=
   mkT (tmode s) (tsrc s) (tcells s) (towner s) (twait s) (tlink s) (tyielded s) (upd (tphase s) c p) (tn s)
-      (tseen s) (tstopped s) (tpolled s) (tstart s) (tcks s) (tlocks s).
+      (tseen s) (tstopped s) (tpolled s) (tstart s) (tcks s) (tlocks s) (tchk s) (tyld s).
 
 (* The step function is a composition of the following moves.  TIdle also stands for "running": a move that
    resumes a suspended consumer first marks it TIdle (t_wake). *)
@@ -678,9 +691,9 @@ Definition t_wake (s : tst) (c : nat) : tst := set_phase s c TIdle.
 Definition t_release (s : tst) : tst :=
   match twait s with
   | [] => mkT (tmode s) (tsrc s) (tcells s) None [] (tlink s) (tyielded s) (tphase s) (tn s)
-              (tseen s) (tstopped s) (tpolled s) (tstart s) (tcks s) (tlocks s)
+              (tseen s) (tstopped s) (tpolled s) (tstart s) (tcks s) (tlocks s) (tchk s) (tyld s)
   | w :: r => mkT (tmode s) (tsrc s) (tcells s) (Some w) r (tlink s) (tyielded s) (tphase s) (tn s)
-                  (tseen s) (tstopped s) (tpolled s) (tstart s) (tcks s) (tlocks s)
+                  (tseen s) (tstopped s) (tpolled s) (tstart s) (tcks s) (tlocks s) (tchk s) (tyld s)
   end.
 
 (* __anext__ after fill() returned had_yieldpoint (lines 126-143) *)
@@ -689,24 +702,24 @@ Definition t_finish (s : tst) (c : nat) (had : bool) : tst * tres * list (event 
   | Some CEnd =>
       if tyielded s c then
         (mkT (tmode s) (tsrc s) (tcells s) (towner s) (twait s) (tlink s) (tyielded s) (upd (tphase s) c TIdle)
-             (tn s) (tseen s) (upd (tstopped s) c true) (tpolled s) (tstart s) (tcks s) (tlocks s), TStop, [])
+             (tn s) (tseen s) (upd (tstopped s) c true) (tpolled s) (tstart s) (tcks s) (tlocks s) (tchk s) (tyld s), TStop, [])
       else (set_phase s c TEndCk, TBlocked, [Ck])
   | Some (CVal v) =>
       if had then
         (mkT (tmode s) (tsrc s) (tcells s) (towner s) (twait s) (upd (tlink s) c (S (tlink s c)))
              (upd (tyielded s) c true) (upd (tphase s) c TIdle) (tn s)
-             (upd (tseen s) c (tseen s c ++ [v])) (tstopped s) (tpolled s) (tstart s) (tcks s) (tlocks s), TRet v, [])
+             (upd (tseen s) c (tseen s c ++ [v])) (tstopped s) (tpolled s) (tstart s) (tcks s) (tlocks s) (tchk s) (tyld s), TRet v, [])
       else
         (mkT (tmode s) (tsrc s) (tcells s) (towner s) (twait s) (upd (tlink s) c (S (tlink s c)))
              (upd (tyielded s) c true) (upd (tphase s) c (TRetSh v)) (tn s)
-             (tseen s) (tstopped s) (tpolled s) (tstart s) (tcks s) (tlocks s), TBlocked, [CkIf; Sh])
+             (tseen s) (tstopped s) (tpolled s) (tstart s) (tcks s) (tlocks s) (tchk s) (tyld s), TBlocked, [CkIf; Sh])
   | None => (s, TRejected, [])
   end.
 
 (* `link.value = ...; link.next = _TeeLink(); link.filled = True` by the (running) lock owner *)
 Definition t_store (s : tst) (c : nat) (x : cell) : tst :=
   mkT (tmode s) (tsrc s) (upd (tcells s) (tlink s c) (Some x)) (towner s) (twait s) (tlink s)
-      (tyielded s) (upd (tphase s) c TIdle) (tn s) (tseen s) (tstopped s) (tpolled s) (tstart s) (tcks s) (tlocks s).
+      (tyielded s) (upd (tphase s) c TIdle) (tn s) (tseen s) (tstopped s) (tpolled s) (tstart s) (tcks s) (tlocks s) (tchk s) (tyld s).
 
 (* store x into the consumer's link, release the lock, finish *)
 Definition t_fill (s : tst) (c : nat) (x : cell) : tst * tres * list (event Z) :=
@@ -719,7 +732,7 @@ Definition next_cell (s : tst) : cell := match tsrc s with [] => CEnd | v :: _ =
 Definition t_poll (s : tst) (c : nat) : tst :=
   mkT (tmode s) (List.tl (tsrc s)) (tcells s) (towner s) (twait s) (tlink s) (tyielded s)
       (upd (tphase s) c (TFilling (next_cell s))) (tn s) (tseen s) (tstopped s) (tpolled s ++ [next_cell s])
-      (tstart s) (tcks s) (tlocks s).
+      (tstart s) (tcks s) (tlocks s) (tchk s) (tyld s).
 
 (* consumer c owns the lock: `if link.filled: return True` else advance the source (lines 96-104) *)
 Definition t_locked (s : tst) (c : nat) : tst * tres * list (event Z) :=
@@ -742,20 +755,20 @@ Definition owner_is (o : option nat) (c : nat) : bool := match o with Some x => 
 Definition t_take (s : tst) (c : nat) : tst :=
   mkT (tmode s) (tsrc s) (tcells s) (Some c) [] (tlink s) (tyielded s)
       (upd (tphase s) c TLockYield) (tn s) (tseen s) (tstopped s) (tpolled s) (tstart s) (tcks s)
-      (upd (tlocks s) c (S (tlocks s c))).
+      (upd (tlocks s) c (S (tlocks s c))) (tchk s) (tyld s).
 
 Definition t_enqueue (s : tst) (c : nat) : tst :=
   mkT (tmode s) (tsrc s) (tcells s) (towner s) (twait s ++ [c]) (tlink s) (tyielded s)
       (upd (tphase s) c TLockWait) (tn s) (tseen s) (tstopped s) (tpolled s) (tstart s) (tcks s)
-      (upd (tlocks s) c (S (tlocks s c))).
+      (upd (tlocks s) c (S (tlocks s c))) (tchk s) (tyld s).
 
 Definition t_stop (s : tst) (c : nat) : tst :=
   mkT (tmode s) (tsrc s) (tcells s) (towner s) (twait s) (tlink s) (tyielded s) (upd (tphase s) c TIdle)
-      (tn s) (tseen s) (upd (tstopped s) c true) (tpolled s) (tstart s) (tcks s) (tlocks s).
+      (tn s) (tseen s) (upd (tstopped s) c true) (tpolled s) (tstart s) (tcks s) (tlocks s) (tchk s) (tyld s).
 
 Definition t_return (s : tst) (c : nat) (v : Z) : tst :=
   mkT (tmode s) (tsrc s) (tcells s) (towner s) (twait s) (tlink s) (tyielded s) (upd (tphase s) c TIdle)
-      (tn s) (upd (tseen s) c (tseen s c ++ [v])) (tstopped s) (tpolled s) (tstart s) (tcks s) (tlocks s).
+      (tn s) (upd (tseen s) c (tseen s c ++ [v])) (tstopped s) (tpolled s) (tstart s) (tcks s) (tlocks s) (tchk s) (tyld s).
 
 (* new consumers j in [tn, tn + k): override f on that range *)
 Definition on_new {A} (s : tst) (k : nat) (f : nat -> A) (v : A) : nat -> A :=
@@ -765,7 +778,7 @@ Definition t_copy (s : tst) (c k : nat) : tst :=
   mkT (tmode s) (tsrc s) (tcells s) (towner s) (twait s) (on_new s k (tlink s) (tlink s c))
       (on_new s k (tyielded s) false) (tphase s) (tn s + k) (on_new s k (tseen s) [])
       (on_new s k (tstopped s) false) (tpolled s) (on_new s k (tstart s) (tlink s c))
-      (on_new s k (tcks s) 0) (on_new s k (tlocks s) 0).
+      (on_new s k (tcks s) 0) (on_new s k (tlocks s) 0) (on_new s k (tchk s) 0) (on_new s k (tyld s) 0).
 
 Definition tstep0 (s : tst) (o : top) : tst * tres * list (event Z) :=
   match o with
@@ -797,10 +810,16 @@ Definition count_ck (ev : list (event Z)) : nat := length (filter is_ck ev).
 Definition op_consumer (o : top) : nat := match o with TNext c | TResume c | TCopy c _ => c end.
 Definition t_bump (s : tst) (c n : nat) : tst :=
   mkT (tmode s) (tsrc s) (tcells s) (towner s) (twait s) (tlink s) (tyielded s) (tphase s) (tn s) (tseen s)
-      (tstopped s) (tpolled s) (tstart s) (upd (tcks s) c (tcks s c + n)) (tlocks s).
+      (tstopped s) (tpolled s) (tstart s) (upd (tcks s) c (tcks s c + n)) (tlocks s) (tchk s) (tyld s).
+Definition count_check (ev : list (event Z)) : nat := length (filter is_check ev).
+Definition count_yield (ev : list (event Z)) : nat := length (filter is_yield ev).
+Definition t_bump2 (s : tst) (c nc ny : nat) : tst :=
+  mkT (tmode s) (tsrc s) (tcells s) (towner s) (twait s) (tlink s) (tyielded s) (tphase s) (tn s) (tseen s)
+      (tstopped s) (tpolled s) (tstart s) (tcks s) (tlocks s) (upd (tchk s) c (tchk s c + nc)) (upd (tyld s) c (tyld s c + ny)).
 
 Definition tstep (s : tst) (o : top) : tst * tres * list (event Z) :=
-  let '(s1, r, ev) := tstep0 s o in (t_bump s1 (op_consumer o) (count_ck ev), r, ev).
+  let '(s1, r, ev) := tstep0 s o in
+  (t_bump2 (t_bump s1 (op_consumer o) (count_ck ev)) (op_consumer o) (count_check ev) (count_yield ev), r, ev).
 
 Definition tstep1 (s : tst) (o : top) : tst * (tres * list (event Z)) :=
   let '(s1, r, ev) := tstep s o in (s1, (r, ev)).
